@@ -71,8 +71,9 @@ class FileReader(AbstractReader):
         if os.path.exists(indexFile):
             try:
                 f = open(indexFile)
+                # (lines that do not hold a module name and a file name are skipped)
                 mibIndex = dict(
-                    [x.split()[:2] for x in f.readlines()]
+                    [x.split()[:2] for x in f.readlines() if len(x.split()) > 1]
                 )
                 f.close()
                 debug.logger & debug.flagReader and debug.logger(
